@@ -42,4 +42,5 @@ func c02(c *Ctx) {
 	for _, d := range ck.IP.Diag {
 		r.Unknown("A0", "diag/"+d, "", d)
 	}
+	joinI8(c)
 }
